@@ -120,15 +120,15 @@ def run(P, C, tier):
                     work.append(c)
         marking_fns = seen
     per_variant = {}
-    for bi, t in pb.live_calls():
-        args = pb.call_args(bi)
-        if not any("DailyMutations" in pb.root_type(a) for a in args):
+    for bi, t, ob, obi in pb.calls_incl_closures():
+        args = ob.call_args(obi)
+        if not any("DailyMutations" in ob.type_of_root(a) for a in args):
             continue
         name = callee_name(t)
         if name.endswith("DailyMutations::write") or name.endswith("default"):
             continue
         var = variant_guard(pb, bi, WM)
-        per_variant.setdefault(var, []).append((bi, name))
+        per_variant.setdefault(var, []).append((bi, name, ob, obi))
     for v in variants:
         if v in EXEMPT:
             C.ob("R2", "variant:" + v, v not in per_variant or True, pb.loc(), "exempt: " + EXEMPT[v], nontrivial=False)
@@ -136,13 +136,19 @@ def run(P, C, tier):
             sites = per_variant.get(v, [])
             ok = bool(sites)
             det = []
-            for bi, name in sites:
+            for bi, name, ob, obi in sites:
                 reaches = any(x == name or x.endswith(name) or name.endswith(x) for x in marking_fns) or name in marking_fns
-                # after the write of the same arm: the write call dominates the mark (or the callee is the write itself)
-                def _conn(x):
-                    return pb.root_type(x).endswith("rusqlite::Connection")
-                writes = [wb for wb, wt in pb.live_calls() if variant_guard(pb, wb, WM) == v and any(_conn(a) for a in pb.call_args(wb)) and wb != bi and not callee_name(wt).endswith("Connection::execute")]
-                after = all(pb.dominates(wb, bi) for wb in writes) if writes else any(_conn(a) for a in pb.call_args(bi))
+                # after the write of the same arm: the write call dominates the mark (or the callee is the write itself);
+                # when the arm works through a closure (`try_for_each(|x| { x.write(conn)?; x.update_daily_logs(..) })`) the
+                # order is decided inside the closure
+                def _conn(xb, x):
+                    return xb.type_of_root(x).endswith("rusqlite::Connection")
+                if ob is pb:
+                    writes = [wb for wb, wt in pb.live_calls() if variant_guard(pb, wb, WM) == v and any(_conn(pb, a) for a in pb.call_args(wb)) and wb != bi and not callee_name(wt).endswith("Connection::execute")]
+                    after = all(pb.dominates(wb, bi) for wb in writes) if writes else any(_conn(pb, a) for a in pb.call_args(bi))
+                else:
+                    writes = [wb for wb, wt in ob.live_calls() if any(_conn(ob, a) for a in ob.call_args(wb)) and wb != obi and not callee_name(wt).endswith("Connection::execute")]
+                    after = all(ob.dominates(wb, obi) for wb in writes) if writes else any(_conn(ob, a) for a in ob.call_args(obi))
                 ok = ok and reaches and after
                 det.append("%s reaches set_need_update=%s, after the write=%s" % (mir.short(name), reaches, after))
             C.ob("R2", "variant:" + v, ok, pb.loc(sites[0][0]) if sites else pb.loc(), "; ".join(det) or "no call receives &mut daily_log in this arm")
